@@ -5,7 +5,9 @@ From Parsley Require Import Obs Base FileSet FileSetProofs Grammar Engine Engine
 Import ListNotations.
 Open Scope N_scope.
 
-(* For every trim-free grammar (all other combinators, memoized nonterminals, named or unnamed alternatives), every input and fuel:
+(* For every trim-free grammar over single-byte (rune) terminals (notrim/ok4 include runes_only: a literal parser's error can lie beyond
+   its start position, Errors.C06_not_beyond_needs_runes_only; all other combinators, memoized nonterminals, named or unnamed alternatives),
+   every input and fuel:
    the error a failing Sentence-rooted parsley.Parse reports lies inside the file and is never beyond a logged failed attempt
    (a terminal or end-of-input that was tried there and did not match) — or is one of two explicitly listed origins with no
    attempt behind them: a Name applied to an operand that returned neither node nor error (only possible through pure
